@@ -275,3 +275,70 @@ def entry_behind_an_abandoned_attempt(ctx):
             ctx.inconclusive_because(f"attempt 2 entered at {entered[2]:.3f}s while attempt 1 was still hanging: the machine stalled for over a second")
     elif 2 in entered:
         ctx.inc("second_attempt_entered_while_first_still_hanging")
+
+
+def abort_while_other_calls_hang(ctx, n_hung=40):
+    """C13 with really hanging attempts of OTHER calls (sync runner, attempt_timeout_s): n_hung concurrent calls whose operations hang
+    past their timeout, then one more call that is aborted by abort_if.  Whatever is shared between calls to run attempts under a
+    timeout, once that run has ended with AbortRetryError its operation is not invoked any more - also not later, when the hung
+    operations of the other calls return.  Counts only."""
+    from redress import AbortRetryError
+
+    release = threading.Event()
+    started = threading.Semaphore(0)
+
+    def hung_op():
+        started.release()
+        release.wait(15.0)
+        return "late"
+
+    kw = dict(classifier=lambda e: ErrorClass.TRANSIENT, strategy=lambda c: 0.0, deadline_s=60.0)
+
+    def hung_call():
+        try:
+            Retry(attempt_timeout_s=0.05, max_attempts=1, **kw).call(hung_op, sleeper=lambda s: None)
+        except BaseException:  # noqa: BLE001
+            pass
+
+    ths = [threading.Thread(target=hung_call, daemon=True) for _ in range(n_hung)]
+    for t in ths:
+        t.start()
+    got = 0
+    for _ in range(n_hung):
+        if started.acquire(timeout=5.0):
+            got += 1
+    for t in ths:
+        t.join(5.0)
+    inv = []
+    ended = [False]
+    late = []
+    polls = [0]
+
+    def op():
+        (late if ended[0] else inv).append(1)
+        raise ConnectionError("down")
+
+    def abort_if():
+        polls[0] += 1
+        return polls[0] > 2
+
+    final = None
+    try:
+        Retry(attempt_timeout_s=0.4, max_attempts=5, **kw).call(op, abort_if=abort_if, sleeper=lambda s: None)
+        final = "returned"
+    except AbortRetryError:
+        final = "AbortRetryError"
+    except BaseException as x:  # noqa: BLE001
+        final = type(x).__name__
+    ended[0] = True
+    release.set()
+    env._REAL["sleep"](0.5)  # the hung operations return now; anything still queued behind them would run now
+    ctx.inc("runs")
+    ctx.inc("aborts_while_other_calls_hang")
+    ctx.cnt["hung_operations_of_other_calls"] += got
+    desc = {"hung_operations_started": got, "invocations_before_the_run_ended": len(inv), "invocations_after": len(late), "polls": polls[0], "final": final}
+    if final == "AbortRetryError" and late:
+        ctx.viol("operation-invoked-after-the-aborted-run-ended", f"{got} operations of other calls were hanging; the run was aborted (AbortRetryError after {polls[0]} polls, {len(inv)} invocation(s)); once the hung operations "
+                 f"returned, its operation was invoked {len(late)} more time(s)", {"hang": desc})
+    elif final != "AbortRetryError":
+        ctx.cnt["abort_while_hanging_ended_otherwise:" + str(final)] += 1
